@@ -1,2 +1,368 @@
+//! T3: the read-only accessor methods of PDB / Model / Chain / Residue / Conformer -> Gen/Accessors.v
+//!
+//! Accepted fragment for a method body (a single expression):
+//!   self.<field>                      the child vector (models, chains, residues, conformers, atoms)
+//!   e.iter() | e.par_iter() | e.into_iter()    the same list
+//!   e.len() | e.count()               length
+//!   e.is_empty()
+//!   e.get(i) | e.nth(i)               nth_error
+//!   e.map(f) | e.flat_map(f) | e.rev() | e.sum() | e.fold(init, |acc, x| body) | e.next() | e.next_back() | e.last()
+//!   e.extend(x)                       hierarchy tuple extended by one ancestor: (e, x)
+//!   x.method() / Type::method         another accessor of the hierarchy (resolved by the element type)
+//!   if c { a } else { b }, e[0], literals, +, (a, b), closures |x| e, move |x| e, paths Type::from_tuple (identity)
+//! Methods taking `&mut self`, raw pointers, or anything else are reported as skipped (they are covered by
+//! the correspondence, not by the translator).  A skipped method that Props/C09.v names makes that file fail.
+use crate::util::*;
+use quote::ToTokens;
+use std::collections::{BTreeMap, BTreeSet};
 use std::path::Path;
-pub fn generate(_repo: &Path) -> Result<String, String> { Err("not implemented".into()) }
+use syn::*;
+
+const TYPES: [(&str, &str, &str); 5] = [
+    ("PDB", "pdb", "src/structs/pdb.rs"),
+    ("Model", "model", "src/structs/model.rs"),
+    ("Chain", "chain", "src/structs/chain.rs"),
+    ("Residue", "residue", "src/structs/residue.rs"),
+    ("Conformer", "conformer", "src/structs/conformer.rs"),
+];
+
+fn field_proj(ty: &str, field: &str) -> Option<(&'static str, &'static str)> {
+    // (Coq projection, element type)
+    match (ty, field) {
+        ("PDB", "models") => Some(("pdb_models", "Model")),
+        ("Model", "chains") => Some(("m_chains", "Chain")),
+        ("Chain", "residues") => Some(("ch_residues", "Residue")),
+        ("Residue", "conformers") => Some(("r_confs", "Conformer")),
+        ("Conformer", "atoms") => Some(("c_atoms", "Atom")),
+        _ => None,
+    }
+}
+
+fn elem_by_method(name: &str) -> Option<&'static str> {
+    let n = name.trim_start_matches("par_").trim_end_matches("_mut");
+    match n {
+        "models" => Some("Model"),
+        "chains" => Some("Chain"),
+        "residues" => Some("Residue"),
+        "conformers" => Some("Conformer"),
+        "atoms" => Some("Atom"),
+        _ => None,
+    }
+}
+
+struct Cx<'a> {
+    ty: &'a str,
+    vars: Vec<(String, Option<String>)>, // closure variables with their hierarchy type when known
+    deps: BTreeSet<(String, String)>,
+    known: &'a BTreeSet<(String, String)>, // all (Type, method) candidates
+}
+
+type R = std::result::Result<String, String>;
+
+impl<'a> Cx<'a> {
+    fn var_type(&self, name: &str) -> Option<String> {
+        for (n, t) in self.vars.iter().rev() {
+            if n == name {
+                return t.clone();
+            }
+        }
+        None
+    }
+    /// hierarchy type of the value of an expression, when it is one of the five types (or Atom)
+    fn type_of(&self, e: &Expr) -> Option<String> {
+        match e {
+            Expr::Path(p) => {
+                let s = p.to_token_stream().to_string();
+                if s == "self" {
+                    Some(self.ty.to_string())
+                } else {
+                    self.var_type(&s)
+                }
+            }
+            Expr::Index(i) => self.elem_type(&i.expr),
+            Expr::Reference(r) => self.type_of(&r.expr),
+            Expr::Paren(p) => self.type_of(&p.expr),
+            _ => None,
+        }
+    }
+    /// element type of an iterator / vector expression
+    fn elem_type(&self, e: &Expr) -> Option<String> {
+        match e {
+            Expr::Field(f) => {
+                let base = self.type_of(&f.base)?;
+                if let Member::Named(n) = &f.member {
+                    field_proj(&base, &n.to_string()).map(|x| x.1.to_string())
+                } else {
+                    None
+                }
+            }
+            Expr::MethodCall(m) => {
+                let name = m.method.to_string();
+                match name.as_str() {
+                    "iter" | "par_iter" | "into_iter" | "rev" | "filter" | "skip" | "take" | "iter_mut" | "par_iter_mut" => self.elem_type(&m.receiver),
+                    _ => elem_by_method(&name).map(str::to_string),
+                }
+            }
+            Expr::Reference(r) => self.elem_type(&r.expr),
+            Expr::Paren(p) => self.elem_type(&p.expr),
+            _ => None,
+        }
+    }
+    fn callee(&mut self, ty: &str, method: &str) -> R {
+        if ty == "Atom" {
+            return Err(format!("call of Atom::{method}"));
+        }
+        let key = (ty.to_string(), method.to_string());
+        if !self.known.contains(&key) {
+            return Err(format!("unknown accessor {ty}::{method}"));
+        }
+        self.deps.insert(key);
+        Ok(format!("{ty}_{method}"))
+    }
+    /// a function-valued argument of map / flat_map
+    fn func(&mut self, e: &Expr, arg_ty: Option<String>) -> R {
+        match e {
+            Expr::Path(p) => {
+                let segs: Vec<String> = p.path.segments.iter().map(|s| s.ident.to_string()).collect();
+                match segs.as_slice() {
+                    [.., t, m] if m == "from_tuple" && t.starts_with("Atom") => Ok("(fun t => t)".into()),
+                    [t, m] => self.callee(t, m),
+                    _ => Err(format!("function path {}", segs.join("::"))),
+                }
+            }
+            Expr::Closure(c) => {
+                if c.inputs.len() != 1 {
+                    return Err("closure arity".into());
+                }
+                let name = match &c.inputs[0] {
+                    Pat::Ident(i) => i.ident.to_string(),
+                    Pat::Type(t) => t.pat.to_token_stream().to_string(),
+                    other => return Err(format!("closure pattern {}", other.to_token_stream())),
+                };
+                self.vars.push((name.clone(), arg_ty));
+                let body = self.expr(&c.body);
+                self.vars.pop();
+                Ok(format!("(fun {name} => {})", body?))
+            }
+            other => Err(format!("function argument {}", other.to_token_stream())),
+        }
+    }
+    fn block(&mut self, b: &Block) -> R {
+        if b.stmts.len() != 1 {
+            return Err("block with several statements".into());
+        }
+        match &b.stmts[0] {
+            Stmt::Expr(e, None) => self.expr(e),
+            _ => Err("statement outside fragment".into()),
+        }
+    }
+    fn expr(&mut self, e: &Expr) -> R {
+        match e {
+            Expr::Paren(p) => self.expr(&p.expr),
+            Expr::Reference(r) => self.expr(&r.expr),
+            Expr::Block(b) => self.block(&b.block),
+            Expr::Lit(l) => match &l.lit {
+                Lit::Int(i) => Ok(i.base10_digits().to_string()),
+                _ => Err("literal".into()),
+            },
+            Expr::Path(p) => {
+                let s = p.to_token_stream().to_string();
+                if s == "self" || self.vars.iter().any(|(n, _)| *n == s) || s == "index" {
+                    Ok(s)
+                } else {
+                    Err(format!("free path {s}"))
+                }
+            }
+            Expr::Tuple(t) if t.elems.len() == 2 => Ok(format!("({}, {})", self.expr(&t.elems[0])?, self.expr(&t.elems[1])?)),
+            Expr::Binary(b) if matches!(b.op, BinOp::Add(_)) => Ok(format!("({} + {})", self.expr(&b.left)?, self.expr(&b.right)?)),
+            Expr::Field(f) => {
+                let base_ty = self.type_of(&f.base).ok_or("field of unknown type")?;
+                let base = self.expr(&f.base)?;
+                if let Member::Named(n) = &f.member {
+                    let (proj, _) = field_proj(&base_ty, &n.to_string()).ok_or(format!("field {base_ty}.{n}"))?;
+                    Ok(format!("({proj} {base})"))
+                } else {
+                    Err("tuple field".into())
+                }
+            }
+            Expr::Index(i) => {
+                let et = self.elem_type(&i.expr).ok_or("index into unknown vector")?;
+                let v = self.expr(&i.expr)?;
+                let ix = self.expr(&i.index)?;
+                Ok(format!("(nth {ix} {v} default_{et})"))
+            }
+            Expr::If(i) => {
+                let c = self.expr(&i.cond)?;
+                let t = self.block(&i.then_branch)?;
+                let el = match &i.else_branch {
+                    Some((_, e)) => self.expr(e)?,
+                    None => return Err("if without else".into()),
+                };
+                Ok(format!("(if {c} then {t} else {el})"))
+            }
+            Expr::MethodCall(m) => {
+                let name = m.method.to_string();
+                let args: Vec<&Expr> = m.args.iter().collect();
+                // accessor of the hierarchy on a value of known type
+                if let Some(t) = self.type_of(&m.receiver) {
+                    if args.is_empty() && !matches!(name.as_str(), "iter" | "len") {
+                        let recv = self.expr(&m.receiver)?;
+                        let f = self.callee(&t, &name)?;
+                        return Ok(format!("({f} {recv})"));
+                    }
+                    if name == "extend" && args.len() == 1 {
+                        // hierarchy tuple (not a known hierarchy type) is handled below; a container's Extend is a mutator
+                        return Err("Extend on a container".into());
+                    }
+                }
+                let et = self.elem_type(&m.receiver);
+                let recv = self.expr(&m.receiver)?;
+                match (name.as_str(), args.len()) {
+                    ("iter" | "par_iter" | "into_iter", 0) => Ok(recv),
+                    ("len" | "count", 0) => Ok(format!("(length {recv})")),
+                    ("is_empty", 0) => Ok(format!("(is_nil {recv})")),
+                    ("sum", 0) => Ok(format!("(list_sum {recv})")),
+                    ("rev", 0) => Ok(format!("(rev {recv})")),
+                    ("next", 0) => Ok(format!("(hd_error {recv})")),
+                    ("next_back" | "last", 0) => Ok(format!("(hd_error (rev {recv}))")),
+                    ("get" | "nth", 1) => Ok(format!("(nth_error {recv} {})", self.expr(args[0])?)),
+                    ("map", 1) => Ok(format!("(map {} {recv})", self.func(args[0], et)?)),
+                    ("flat_map", 1) => Ok(format!("(flat_map {} {recv})", self.func(args[0], et)?)),
+                    ("extend", 1) => Ok(format!("({recv}, {})", self.expr(args[0])?)),
+                    ("fold", 2) => {
+                        let init = self.expr(args[0])?;
+                        if let Expr::Closure(c) = args[1] {
+                            if c.inputs.len() != 2 {
+                                return Err("fold closure arity".into());
+                            }
+                            let a = c.inputs[0].to_token_stream().to_string();
+                            let x = c.inputs[1].to_token_stream().to_string();
+                            self.vars.push((a.clone(), None));
+                            self.vars.push((x.clone(), et));
+                            let body = self.expr(&c.body);
+                            self.vars.pop();
+                            self.vars.pop();
+                            Ok(format!("(fold_left (fun {a} {x} => {}) {recv} {init})", body?))
+                        } else {
+                            Err("fold without closure".into())
+                        }
+                    }
+                    (n, k) => Err(format!("method {n}/{k}")),
+                }
+            }
+            other => Err(format!("expression {}", other.to_token_stream().to_string().chars().take(60).collect::<String>())),
+        }
+    }
+}
+
+pub fn generate(repo: &Path) -> std::result::Result<String, String> {
+    // 1. collect candidate methods: pub fn, receiver &self (not &mut self), at most one extra argument named index
+    let mut files = Vec::new();
+    for (ty, _, path) in TYPES {
+        files.push((ty, parse_rs(repo, path)?));
+    }
+    let mut cands: Vec<(String, String, &ImplItemFn)> = Vec::new();
+    for (ty, file) in &files {
+        for item in &file.items {
+            if let Item::Impl(i) = item {
+                if i.trait_.is_some() || i.self_ty.to_token_stream().to_string() != *ty {
+                    continue;
+                }
+                for it in &i.items {
+                    if let ImplItem::Fn(m) = it {
+                        let is_ref_self = matches!(m.sig.inputs.first(), Some(FnArg::Receiver(r)) if matches!(&r.kind, ReceiverKind::Reference(_, _, None)));
+                        if !is_ref_self || !matches!(m.vis, Visibility::Public(_)) {
+                            continue;
+                        }
+                        let extra: Vec<String> = m
+                            .sig
+                            .inputs
+                            .iter()
+                            .skip(1)
+                            .map(|a| match a {
+                                FnArg::Typed(t) => t.pat.to_token_stream().to_string(),
+                                _ => "?".into(),
+                            })
+                            .collect();
+                        if extra.len() > 1 || (extra.len() == 1 && extra[0] != "index") {
+                            continue;
+                        }
+                        cands.push((ty.to_string(), m.sig.ident.to_string(), m));
+                    }
+                }
+            }
+        }
+    }
+    let known: BTreeSet<(String, String)> = cands.iter().map(|(t, m, _)| (t.clone(), m.clone())).collect();
+    // 2. translate
+    let mut defs: BTreeMap<(String, String), (String, BTreeSet<(String, String)>, bool)> = BTreeMap::new();
+    let mut skipped: Vec<String> = Vec::new();
+    for (ty, name, m) in &cands {
+        let mut cx = Cx { ty, vars: vec![], deps: BTreeSet::new(), known: &known };
+        let has_index = m.sig.inputs.len() == 2;
+        match cx.block(&m.block) {
+            Ok(body) => {
+                defs.insert((ty.clone(), name.clone()), (body, cx.deps, has_index));
+            }
+            Err(e) => skipped.push(format!("{ty}::{name}: {e}")),
+        }
+    }
+    // 3. drop definitions whose dependencies were skipped (transitively), then order topologically
+    loop {
+        let bad: Vec<(String, String)> = defs
+            .iter()
+            .filter(|(_, (_, deps, _))| deps.iter().any(|d| !defs.contains_key(d)))
+            .map(|(k, _)| k.clone())
+            .collect();
+        if bad.is_empty() {
+            break;
+        }
+        for k in bad {
+            skipped.push(format!("{}::{}: depends on a skipped accessor", k.0, k.1));
+            defs.remove(&k);
+        }
+    }
+    let mut order: Vec<(String, String)> = Vec::new();
+    let mut done: BTreeSet<(String, String)> = BTreeSet::new();
+    fn visit(
+        k: &(String, String),
+        defs: &BTreeMap<(String, String), (String, BTreeSet<(String, String)>, bool)>,
+        done: &mut BTreeSet<(String, String)>,
+        order: &mut Vec<(String, String)>,
+        depth: usize,
+    ) -> std::result::Result<(), String> {
+        if done.contains(k) {
+            return Ok(());
+        }
+        if depth > 64 {
+            return Err(format!("cyclic accessor definitions at {}::{}", k.0, k.1));
+        }
+        for d in &defs[k].1 {
+            if d != k {
+                visit(d, defs, done, order, depth + 1)?;
+            }
+        }
+        done.insert(k.clone());
+        order.push(k.clone());
+        Ok(())
+    }
+    let keys: Vec<(String, String)> = defs.keys().cloned().collect();
+    for k in &keys {
+        visit(k, &defs, &mut done, &mut order, 0)?;
+    }
+    let coq_ty = |t: &str| TYPES.iter().find(|x| x.0 == t).map(|x| x.1).unwrap_or("unit");
+    let mut s = String::new();
+    s.push_str("(* GENERATED by translators/rs2coq (T3) from src/structs/{pdb,model,chain,residue,conformer}.rs. Do not edit. *)\n");
+    s.push_str("From Coq Require Import List Arith.\nFrom PV Require Import Base.Text Spec.Hier.\nImport ListNotations.\n");
+    s.push_str("Definition pdb_models (p : pdb) : list model := p.\n");
+    for k in &order {
+        let (body, _, has_index) = &defs[k];
+        let arg = if *has_index { " (index : nat)" } else { "" };
+        s.push_str(&format!("Definition {}_{} (self : {}){arg} := {body}.\n", k.0, k.1, coq_ty(&k.0)));
+    }
+    s.push_str(&format!("(* translated: {} ; skipped: {} *)\n", order.len(), skipped.len()));
+    for sk in &skipped {
+        s.push_str(&format!("(* skipped {} *)\n", sk.replace("*)", "* )").replace("(*", "( *")));
+    }
+    Ok(s)
+}
